@@ -74,6 +74,37 @@ pub struct Gen {
     /// spec-side picture of the book, in priority order (targeting only)
     pub book: Vec<OrderSpec>,
     pub gone: Vec<IdS>,
+    /// most orders the generated book may hold at once
+    pub book_cap: usize,
+    /// unused identifiers of the corner pool (id format 4)
+    pub id_pool: Vec<IdS>,
+}
+
+/// Identifiers with particular bit patterns: nil, all ones, pairs that agree in the low or in
+/// the high 64 bits, and the same 128 bits once as UUID and once as ULID.
+fn corner_ids() -> Vec<IdS> {
+    let vs: [u128; 12] = [
+        0,
+        1,
+        u128::MAX,
+        u128::MAX - 1,
+        1 << 64,
+        (1 << 64) | 1,
+        2 << 64,
+        (2 << 64) | 1,
+        u64::MAX as u128,
+        (u64::MAX as u128) << 64,
+        0x8000_0000_0000_0000_0000_0000_0000_0000,
+        0x0000_0000_0000_0001_0000_0000_0000_0000 << 1,
+    ];
+    let mut v = vec![];
+    for x in vs {
+        v.push(IdS { ulid: false, v: x });
+        v.push(IdS { ulid: true, v: x });
+    }
+    v.sort();
+    v.dedup();
+    v
 }
 
 const CORNERS: [u64; 9] = [
@@ -117,10 +148,21 @@ impl Gen {
         } else {
             *k.pick(&[0u8, 0, 0, 1, 2, 3, 4, 5])
         };
-        let id_fmt = k.below(4) as u8;
+        let mut id_fmt = k.below(4) as u8;
+        if k.chance(1, 8) {
+            id_fmt = 4;
+        }
+        let mut id_pool = corner_ids();
+        if id_fmt == 4 {
+            // shuffled once per run
+            for i in (1..id_pool.len()).rev() {
+                let j = k.below(i as u64 + 1) as usize;
+                id_pool.swap(i, j);
+            }
+        }
         let price = match pool {
             QPool::Corner => *k.pick(&[1u64, 1, 2, 3]),
-            _ => *k.pick(&[1u64, 7, 100, 100, 10_000, 1 << 32]),
+            _ => *k.pick(&[1u64, 7, 100, 100, 10_000, 1 << 32, 0]),
         };
         let offprice = p.offprice && k.chance(1, 3);
         // price * quantity sums must fit in 64 bits, also for the off-price orders (price + 1..=5)
@@ -143,6 +185,8 @@ impl Gen {
             next_ts: 1000,
             book: vec![],
             gone: vec![],
+            book_cap: 12,
+            id_pool,
         }
     }
 
@@ -155,6 +199,13 @@ impl Gen {
             2 => IdS {
                 ulid: false,
                 v: (self.w.u128() & !0xffff) | n,
+            },
+            4 => match self.id_pool.pop() {
+                Some(id) => id,
+                None => IdS {
+                    ulid: n % 2 == 0,
+                    v: 0x5_0000 + n,
+                },
             },
             _ => IdS {
                 ulid: self.w.chance(1, 2),
@@ -483,8 +534,38 @@ pub fn gen_history(seed: u64, p: &Profile) -> History {
         }
         wts = [1, 6, 1, 6, 0, 1, 1, 0, wts[8].min(1), 0, 0];
     }
+    // scale (a small share of the runs, because they cost 10-30 times an ordinary run):
+    // "big book" - tens to hundreds of orders resting at once, so that shard, queue-segment and
+    // batch boundaries are crossed and one match sweeps many makers; "long history" - hundreds
+    // of operations on a handful of orders, so that the same order is amended, partially filled,
+    // replenished and handed back many times and every counter passes 255 / 256
+    let sc = g.k.below(64);
+    let size_pick = *g.k.pick(&[17usize, 20, 33, 33, 40, 65, 65, 130, 260]);
+    let long_pick = *g.k.pick(&[150usize, 300, 300, 600, 1000]);
+    let big = !lane_stress && sc < 2;
+    let long = !lane_stress && (sc == 2 || sc == 3);
+    let mut len = len;
+    if big {
+        g.book_cap = size_pick + 8;
+        len = len.max(size_pick + 4) + g.k.below(24) as usize;
+    }
+    if long {
+        g.book_cap = 2 + g.k.below(4) as usize;
+        len = long_pick;
+        wts[0] += 2;
+        wts[1] += 2;
+        wts[2] = wts[2].max(1);
+        wts[3] = wts[3].max(2);
+        wts[9] = wts[9].min(1);
+    }
     // a few adds up front so that there is a book to work on
-    let pre = if lane_stress { 0 } else { g.k.below(5) as usize };
+    let pre = if lane_stress {
+        0
+    } else if big {
+        size_pick
+    } else {
+        g.k.below(5) as usize
+    };
     for _ in 0..pre.min(len) {
         let id = g.fresh_id();
         let o = g.order(id);
@@ -502,7 +583,7 @@ pub fn gen_history(seed: u64, p: &Profile) -> History {
                 } else {
                     g.fresh_id()
                 };
-                if g.book.len() >= 12 || g.room() < 2 {
+                if g.book.len() >= g.book_cap || g.room() < 2 {
                     continue;
                 }
                 let o = g.order(id);
@@ -510,15 +591,23 @@ pub fn gen_history(seed: u64, p: &Profile) -> History {
                 ops.push(Op::Add(o));
             }
             1 => {
-                let qty = if lane_stress && g.w.chance(3, 4) {
+                let qty = if (lane_stress || long) && g.w.chance(3, 4) {
                     1 + g.w.below(3)
                 } else {
                     g.match_qty()
                 };
-                let taker = IdS {
+                let mut taker = IdS {
                     ulid: g.w.chance(1, 2),
                     v: 0x7a6b_0000 + g.w.below(1000) as u128,
                 };
+                // now and then the taker carries the id of an order that rests here or did
+                if g.w.chance(1, 16) {
+                    if let Some(o) = g.book.first() {
+                        taker = o.id;
+                    }
+                } else if g.w.chance(1, 32) && !g.gone.is_empty() {
+                    taker = *g.w.pick(&g.gone.clone());
+                }
                 g.book_match(qty);
                 ops.push(Op::Match { qty, taker });
             }
